@@ -125,12 +125,14 @@ Theorem C16_setup_failure_no_cleanup : forall var u body w c,
 Proof. exact setup_failure. Qed.
 Print Assumptions C16_setup_failure_no_cleanup.
 
-(* the generator function receives the caller's own arguments (identity u_args u), in setup
-   and therefore in cleanup *)
-Theorem C16_args_forwarded : forall var u body w,
-  body_wf body ->
-  let r := with_use var (prog var) u body w in
-  exists rest, journal (snd r) = journal w ++ EvGen (u_id u) 0 (Some (u_args u)) :: rest.
+(* the generator function receives the caller's own arguments (identity u_args u): the first thing a
+   with statement adds to the journal is the setup entry carrying them, and every entry it adds for
+   this generator (setup, cleanup) carries them; whatever setup, body and cleanup do *)
+Theorem C16_args_forwarded : forall var u tag o w,
+  let r := with_use var (prog var) u (simple_body tag o) w in
+  exists new, journal (snd r) = journal w ++ new /\
+              hd_error new = Some (EvGen (u_id u) 0 (Some (u_args u))) /\
+              forall i t a', In (EvGen i t a') new -> i = u_id u /\ a' = Some (u_args u).
 Proof. exact args_forwarded. Qed.
 Print Assumptions C16_args_forwarded.
 
@@ -169,10 +171,11 @@ Print Assumptions C16_repeated_use_independent.
 
 (* a body that raises StopIteration / StopAsyncIteration / GeneratorExit: inside the wrapper the
    StopIteration is turned into a RuntimeError (PEP 479) and contextlib recognises it by its
-   __cause__; what leaves the with statement is the body's own object *)
+   __cause__; what leaves the with statement is the body's own object (c ranges over every class;
+   the instances of interest are StopIterationC, StopAsyncIterationC, GeneratorExitC, RuntimeErrorC,
+   KeyboardInterruptC, see the Example at the end) *)
 Theorem C16_body_stop_iteration_unchanged : forall var u tag c w,
   u_setup u = SetupOk -> u_cleanup u = CleanOk ->
-  In c [StopIterationC; StopAsyncIterationC; GeneratorExitC; RuntimeErrorC; KeyboardInterruptC] ->
   fst (with_use var (prog var) u (simple_body tag (BodyRaise c)) w)
   = WRaise (Exc c (nid w) (OBody tag) None).
 Proof. exact body_stop_unchanged. Qed.
@@ -243,8 +246,14 @@ Proof.
   intros x w o w' H.
   pose proof (with_use_wf Async (mkUse 2 8 SetupOk 10 (CleanRaise ValueErrorC)) (simple_body 2 BodyEarly) w
                 (simple_body_wf _ _) (simple_body_mono _ _)) as [H1 _].
-  cbv zeta in H1. unfold P, prog_of, deco_of in H1. unfold prog, deco_for in H. rewrite H in H1. exact H1.
+  cbv zeta in H1. change (P Async) with (prog Async) in H1. rewrite H in H1. exact H1.
 Qed.
+
+Example C16_example_stop_classes :
+  forall c, In c [StopIterationC; StopAsyncIterationC; GeneratorExitC; RuntimeErrorC; KeyboardInterruptC] ->
+  forall var, fst (with_use var (prog var) (mkUse 1 7 SetupOk 9 CleanOk) (simple_body 1 (BodyRaise c)) w0)
+              = WRaise (Exc c 0 (OBody 1) None).
+Proof. intros c _ var. apply C16_body_stop_iteration_unchanged; reflexivity. Qed.
 
 Example C16_example_run :
   let u1 := mkUse 1 7 SetupOk 9 (CleanRaise StopIterationC) in
